@@ -27,7 +27,7 @@ def model_vs_impl(tag, cases, check_fn="check_validate", shard=120):
         obs = S.run_validate(c["data"], c["sg"], **c["opts"])
         observations.append(obs)
         I = enc.Interner()
-        oc = S.observed_to_coq(I, obs)
+        oc = S.observed_to_coq(I, obs, c["shapes"])
         if oc is None:
             raw.append(i)
             continue
